@@ -94,6 +94,17 @@ def flow(ctx, proto, thorough, namplify, measure=True, stride=1):
             hist[k] = mutate(rng, hist[k])
         exp = exps[rng.randrange(3)]
         jobs.append({"msgs": [{"exp": exp, "buf": b} for b in hist], "want_json": True, "measure": measure, "src": "mut"})
+    # full-range histories: every element type at its own, at reduced and at oversized field lengths, variable-length
+    # values, hostile strings (gen_flow, the generator of the C03 / C06 round trips) - as they are and mutated
+    import gen_flow
+    g = gen_flow.Gen(rng, "ipfix" if proto == "ipfix" else "v9")
+    for n in range(max(60, namplify // 40)):
+        hist = g.history(rng.choice([2, 3, 4]))
+        exp = exps[n % 3]
+        jobs.append({"msgs": [{"exp": exp, "buf": b} for b in hist], "want_json": True, "measure": measure, "src": "gen"})
+        h2 = [list(b) for b in hist]
+        h2[-1] = mutate(rng, h2[-1])
+        jobs.append({"msgs": [{"exp": exp, "buf": b} for b in h2], "want_json": True, "measure": measure, "src": "genmut"})
     res = flowjobs.run_jobs(ctx, drv, codec.P[proto]["jobs"], jobs, env={"VERIF_ELEMENTS_DIR": eldir}, tag="fz_" + proto, timeout=3000)
     ctx.traces_validated += sum(1 for r in res if not r.get("skipped"))
     return list(zip(jobs, res))
